@@ -10,6 +10,7 @@ from .extract import Undecided
 VIOLATION_MSGS = [
     r'postcondition not satisfied',
     r'precondition not satisfied',
+    r'precondition not met',
     r'invariant not satisfied',
     r'assertion failed',
     r'possible arithmetic underflow/overflow',
